@@ -375,7 +375,7 @@ pub fn run_case(c: &Case) -> Result<RunInfo, String> {
 
 #[derive(Clone, Debug, Serialize, Deserialize, Hash)]
 pub struct PeerCase {
-    /// 0 close, 1 end, 2 detach (closing)
+    /// 0 close, 1 end, 2 detach (closing), 3 detach (non-closing)
     pub what: u8,
     pub with_error: bool,
     /// inject after this many frames of the conversation were received from the endpoint
@@ -389,6 +389,8 @@ pub struct PeerCase {
 const COND: &str = "amqp:resource-limit-exceeded";
 
 pub async fn run_peer_async(c: &PeerCase) -> Result<(bool, Vec<String>), String> {
+    // what: 2 = closing detach of both links, 3 = non-closing detach of both links
+    let is_detach = c.what >= 2;
     let cfg = RigCfg { pipe: simnet::PipeCfg { cap: 1 << 22, shutdown_err: [c.shutdown_fails, false], ..simnet::PipeCfg::default() }, ..RigCfg::default() };
     let ClientRig { mut conn, mut sess, mut peer, my_ch, .. } = peer::client_rig(cfg).await?;
     let ph = 4u32;
@@ -440,8 +442,8 @@ pub async fn run_peer_async(c: &PeerCase) -> Result<(bool, Vec<String>), String>
                 0 => peer.send_frame(0, &Peer::close_body(err.clone()), &[]).await?,
                 1 => peer.send_frame(my_ch, &Peer::end_body(err.clone()), &[]).await?,
                 _ => {
-                    peer.send_frame(my_ch, &Peer::detach_body(ph, true, err.clone()), &[]).await?;
-                    peer.send_frame(my_ch, &Peer::detach_body(9, true, err.clone()), &[]).await?;
+                    peer.send_frame(my_ch, &Peer::detach_body(ph, c.what == 2, err.clone()), &[]).await?;
+                    peer.send_frame(my_ch, &Peer::detach_body(9, c.what == 2, err.clone()), &[]).await?;
                 }
             }
         }
@@ -450,12 +452,12 @@ pub async fn run_peer_async(c: &PeerCase) -> Result<(bool, Vec<String>), String>
                 seen = seen.saturating_add(1);
                 // answer handshakes so that teardown calls can complete
                 match f.name() {
-                    "detach" if c.what != 2 => {
+                    "detach" if !is_detach => {
                         let h = peer::as_uint(&f.field(0)).unwrap_or(0);
                         let my = if h == 0 { ph } else { 9 };
                         peer.send_frame(my_ch, &Peer::detach_body(my, true, None), &[]).await?;
                     }
-                    "end" if c.what == 2 => peer.send_frame(my_ch, &Peer::end_body(None), &[]).await?,
+                    "end" if is_detach => peer.send_frame(my_ch, &Peer::end_body(None), &[]).await?,
                     "close" if c.what != 0 => peer.send_frame(0, &Peer::close_body(None), &[]).await?,
                     _ => {}
                 }
@@ -482,11 +484,11 @@ pub async fn run_peer_async(c: &PeerCase) -> Result<(bool, Vec<String>), String>
     };
     for l in &log {
         if l.contains("=Err(") || l.starts_with("recv=Err") {
-            if c.what != 2 && !l.contains(want_level) && !l.contains("Remote") {
+            if !is_detach && !l.contains(want_level) && !l.contains("Remote") {
                 errs.push(format!("{l}: does not name the level that stopped ({want_level})"));
             }
             // a detach is reported with its condition by the link's next operation (checked after teardown)
-            if c.with_error && c.what != 2 && !l.contains("ResourceLimitExceeded") {
+            if c.with_error && !is_detach && !l.contains("ResourceLimitExceeded") {
                 errs.push(format!("{l}: does not carry the condition the peer supplied"));
             }
         }
@@ -494,10 +496,20 @@ pub async fn run_peer_async(c: &PeerCase) -> Result<(bool, Vec<String>), String>
     // teardown calls return; answer them
     let td = async {
         let mut v = Vec::new();
-        v.push(format!("sender.close={:?}", tokio::time::timeout(Duration::from_secs(900), sender.close()).await.map(|r| r.map_err(|e| format!("{e:?}")))));
-        v.push(format!("receiver.close={:?}", tokio::time::timeout(Duration::from_secs(900), receiver.close()).await.map(|r| r.map_err(|e| format!("{e:?}")))));
+        if c.what == 3 {
+            // a non-closing detach is answered in kind (close() here is KF-link-close-after-remote-detach)
+            v.push(format!("sender.close={:?}", tokio::time::timeout(Duration::from_secs(900), sender.detach()).await.map(|r| r.map(|_| ()).map_err(|(_, e)| format!("{e:?}")))));
+            v.push(format!("receiver.close={:?}", tokio::time::timeout(Duration::from_secs(900), receiver.detach()).await.map(|r| r.map(|_| ()).map_err(|(_, e)| format!("{e:?}")))));
+        } else {
+            v.push(format!("sender.close={:?}", tokio::time::timeout(Duration::from_secs(900), sender.close()).await.map(|r| r.map_err(|e| format!("{e:?}")))));
+            v.push(format!("receiver.close={:?}", tokio::time::timeout(Duration::from_secs(900), receiver.close()).await.map(|r| r.map_err(|e| format!("{e:?}")))));
+        }
         v.push(format!("session.end={:?}", tokio::time::timeout(Duration::from_secs(900), sess.end()).await.map(|r| r.map_err(|e| format!("{e:?}")))));
         v.push(format!("connection.close={:?}", tokio::time::timeout(Duration::from_secs(900), conn.close()).await.map(|r| r.map_err(|e| format!("{e:?}")))));
+        // teardown calls are safe to repeat: a second call reports an error, it neither hangs nor panics
+        let again = format!("{:?}", tokio::time::timeout(Duration::from_secs(900), conn.on_close()).await.map(|r| r.map_err(|e| format!("{e:?}"))));
+        let again2 = format!("{:?}", tokio::time::timeout(Duration::from_secs(900), conn.close()).await.map(|r| r.map_err(|e| format!("{e:?}"))));
+        v.insert(v.len() - 1, format!("connection.close-again={again}/{again2}"));
         v
     };
     let answer = async {
@@ -507,7 +519,7 @@ pub async fn run_peer_async(c: &PeerCase) -> Result<(bool, Vec<String>), String>
                     "detach" => {
                         let h = peer::as_uint(&f.field(0)).unwrap_or(0);
                         let my = if h == 0 { ph } else { 9 };
-                        if c.what != 2 {
+                        if !is_detach {
                             let _ = peer.send_frame(my_ch, &Peer::detach_body(my, true, None), &[]).await;
                         }
                     }
@@ -535,7 +547,7 @@ pub async fn run_peer_async(c: &PeerCase) -> Result<(bool, Vec<String>), String>
         }
     }
     log.extend(v);
-    if c.what == 2 && c.with_error {
+    if is_detach && c.with_error {
         // each link must have reported the peer's condition through one of its operations
         let snd_ok = log.iter().any(|l| (l.starts_with("outcome#") || l.starts_with("send_batchable#") || l.starts_with("sender.close")) && l.contains("ResourceLimitExceeded"));
         let rcv_ok = log.iter().any(|l| (l.starts_with("recv=") || l.starts_with("receiver.close")) && l.contains("ResourceLimitExceeded"));
@@ -648,7 +660,7 @@ fn run(ctx: &ShardCtx, rep: &mut Report) {
     rep.exhaustive = ctx.tier == Tier::Thorough;
     // (b) peer-initiated close/end/detach after every frame
     let mut k: u64 = 0;
-    for what in 0..3u8 {
+    for what in 0..4u8 {
         for with_error in [false, true] {
             for after in 0..10u8 {
                 for s in 0..(if ctx.tier == Tier::Quick { 4u64 } else { 32 }) {
@@ -662,7 +674,7 @@ fn run(ctx: &ShardCtx, rep: &mut Report) {
                     ctx.journal("peer", &serde_json::to_value(&c).unwrap());
                     match guarded(|| run_peer_case(&c)) {
                         Ok(Ok((injected, log))) => {
-                            rep.class(["peer-close", "peer-end", "peer-detach"][what as usize]);
+                            rep.class(["peer-close", "peer-end", "peer-detach-closing", "peer-detach-non-closing"][what as usize]);
                             if injected {
                                 rep.nontrivial.insert(hash_of(&c));
                             }
